@@ -6,7 +6,7 @@ fix_commits = subprocess.run(["git", "-C", "/repo", "log", "--format=%H %s"], ca
 fix_commits = [l.split()[0] for l in fix_commits if " fix:" in l]
 TEXT = {
  "C01": ("theorems over all element trees and environments (properties/C01.v: shape invariant of the collector by induction over the tree, no CaretDepthError) + correspondence of the nesting shapes of all 15 part attributes with /repo on generated packages and the corpus + shape oracle on /repo's values + source translation: _get_elem_depth (BFS = min distance, 1..4), get_par_strings/_join_runs, and the caret methods of DepthCollector in a heap embedding refine the model (alias stack = rightmost spine)", "8 C01"),
- "C02": ("refinement theorem: a paragraph of inline content yields exactly one record whose tokens are label + marker + the children's contributions in order; merge keeps the atom sequence (partial, counterexample proved); correspondence of all plain strings; reference-rendering oracle per paragraph + source translation: _is_content / has_content and the content-tag set equal the model", "8 C02"),
+ "C02": ("refinement theorem: a paragraph of inline content yields exactly one record whose tokens are label + marker + the children's contributions in order; merge keeps the atom sequence (partial, counterexample proved); correspondence of all plain strings; reference-rendering oracle per paragraph + source translation: _is_content / has_content and the content-tag set equal the model; the run methods of the collector in the heap embedding (add_text_into_open_run, insert_text_as_new_run, commence_run ...) do exactly the model's run operations and touch nothing else", "8 C02"),
  "C03": ("theorems on the view functions (address-wise agreement of the three forms, concatenation of document*, text) for arbitrary nested input + correspondence of all views + the four equalities evaluated on /repo's values + source translation: get_par_strings, _join_runs, flatten_text equal the model", "8 C03"),
  "C04": ("grid theorems for every tiling (n x m, duplicate / blank, agreement off merges) + END-TO-END refinement: walking a whole tbl/tr/tc/p table from any reachable state appends exactly the grid function's table, each position holding the records of the source cell covering it (GridWalk; side condition refuted without it) + correspondence + cell-by-cell grid oracle", "8 C04"),
  "C05": ("lineage theorem for every directly nested table walked from any state, free-paragraph theorem, element/style from the paragraph refinement + correspondence of lineage/style/element + oracle on /repo's records, predicates and get_headings + source translation: is_tbl/is_tr/is_tc and get_pStyle equal the model", "8 C05"),
@@ -14,7 +14,7 @@ TEXT = {
  "C07": ("balance theorem for every document (nested paragraphs and link bodies included), escaping theorems, vocabulary over the regenerated formatter table, switched-off properties produce no tag + correspondence of html strings + tokenizer oracle (balance, vocabulary, escapes, projection onto plain, per-character tag sets exactly those of the source run properties) + source translation: html_open/html_close, Run.__str__, Par.run_strings, DepthCollector.escape, namespace.qn and gather_Pr equal the model", "8 C07"),
  "C08": ("unbounded theorems for letters, Roman 1..3999 by kernel computation, counting rule for every history, sorted positions, marker layout + correspondence of the renderers and of list documents + oracle recomputing counts and marker text + source translation: the six renderers and _increment_list_counter equal the model for all arguments", "8 C08"),
  "C09": ("path-inference theorems (relative, absolute, root, own rels; the two failing classes refuted) + correspondence of file list and all attributes on re-laid-out packages + layout-invariance oracle", "8 C09"),
- "C10": ("marker theorems via the paragraph refinement (link resolved / anchor / fallback, one run, note references, note labels) + correspondence at run granularity and of utilities.get_links (regex re-implemented in Utilities.v) + oracle against relationships and get_links", "8 C10"),
+ "C10": ("marker theorems via the paragraph refinement (link resolved / anchor / fallback, one run, note references, note labels) + correspondence at run granularity and of utilities.get_links (regex re-implemented in Utilities.v) + oracle against relationships and get_links + relationships re-pointed through the reader render their current target", "8 C10"),
  "C11": ("theorems on the images mapping (sound, complete, missing skipped); files on disk are observed only: oracle compares folder listing and bytes; partial + file-system model (Fs.v): exactly the images are written, byte-identical, nothing else changes", "8 C11"),
  "C12": ("prefix-monotonicity theorems for run strings at comment markers, bounds of recorded ranges, mismatch outcomes (partial: single open paragraph; counterexamples proved) + correspondence of comments + anchor oracles", "8 C12"),
  "C13": ("totality theorem: local success of every element implies success of the whole walk and rendering (table-free, marker-free trees), internal errors unreachable for every input + correspondence of outcome classes on the edge stream + no-exception oracle", "8 C13"),
